@@ -310,6 +310,12 @@ func onlyMultierrors(fn *ssa.Function, depth int) bool {
 			if mi, isMI := v.(*ssa.MakeInterface); isMI && strings.HasSuffix(mi.X.Type().String(), "go-multierror.Error") {
 				continue
 			}
+			// acc.ErrorOrNil(): the accumulator itself (or nil)
+			if call, isCall := v.(*ssa.Call); isCall {
+				if c := call.Common().StaticCallee(); c != nil && c.Name() == "ErrorOrNil" && c.Pkg != nil && strings.Contains(c.Pkg.Pkg.Path(), "go-multierror") {
+					continue
+				}
+			}
 			if ex, isEx := v.(*ssa.Extract); isEx {
 				if call, isCall := ex.Tuple.(*ssa.Call); isCall {
 					if h := call.Common().StaticCallee(); h != nil && load.InRepo(h) && len(h.Blocks) > 0 && returnsError(h) == ex.Index && onlyMultierrors(h, depth+1) {
